@@ -15,6 +15,9 @@ def try_to_merge_ops(ops1, ops2):
     ops2_columns_produced = set([k for k in ops2.keys()])
     common_produced = ops1_columns_produced.intersection(ops2_columns_produced)
     if len(common_produced) > 0:
+        if len(ops2_columns_used.intersection(ops1_columns_produced)) > 0:
+            # the second step reads a column the first one produces: must stay two steps
+            return None
         ops1_common = {k: ops1[k] for k in common_produced}
         ops2_common = {k: ops2[k] for k in common_produced}
         ops1_common_columns_used = set(
